@@ -14,7 +14,7 @@ Sizes == {"plain", "s120", "s127", "s128", "s129", "s255", "s256", "s257", "s300
 FacetValues == [
     attrs   |-> {"ok", "missing_ct", "missing_md", "missing_st", "dup_ct", "dup_md", "dup_st"},
     digest  |-> {"ok", "bad", "short", "long", "empty"},    \* wrong octet; a proper prefix; the digest plus one octet; no octets
-    sig     |-> {"ok", "wrongkey", "bitflip"},
+    sig     |-> {"ok", "wrongkey", "bitflip", "stale"},      \* stale: the good signature of the conforming message over attributes that have since changed
     sid     |-> {"ok", "bad"},
     eesig   |-> {"peer", "other"},
     eetime  |-> {"ok", "expired", "notyet", "inverted"},   \* inverted: notBefore after notAfter, the evaluation time between them
